@@ -1240,12 +1240,8 @@ void Parser::ParserImpl::loadConnection(const ModelPtr &model, const XmlNodePtr 
             mapVariablesFound = true;
 
             if (!variable1Missing && !variable2Missing) {
-                if (variable1Name > variable2Name) {
-                    std::string tmp = variable1Name;
-                    variable1Name = variable2Name;
-                    variable2Name = tmp;
-                }
-
+                // The pair is ordered: variable_1 belongs to component_1 and variable_2 to component_2, so
+                // mapping 'x' to 'y' and 'y' to 'x' between the same two components is not a repetition.
                 auto variableNamePair = std::make_pair(variable1Name, variable2Name);
 
                 NamePairList::const_iterator it = std::find_if(usedMapVariables.begin(), usedMapVariables.end(),
@@ -1254,6 +1250,10 @@ void Parser::ParserImpl::loadConnection(const ModelPtr &model, const XmlNodePtr 
                 if (it == usedMapVariables.end()) {
                     usedMapVariables.emplace_back(variableNamePair);
                 } else {
+                    // Report the two names in alphabetical order.
+                    if (variableNamePair.first > variableNamePair.second) {
+                        std::swap(variableNamePair.first, variableNamePair.second);
+                    }
                     auto issue = Issue::IssueImpl::create();
                     issue->mPimpl->setDescription("Connection in model '" + model->name() + "' between '" + variableNamePair.first + "' and '" + variableNamePair.second + "' is not unique.");
                     issue->mPimpl->mItem->mPimpl->setModel(model);
